@@ -683,7 +683,20 @@ def _detect_input(X, layout, ro):
 @st.composite
 def _detect_case(draw):
     nc = draw(st.sampled_from([384, 384, 384, 384, 276, 192, 96]))
-    return {"kind": "detect", "nc": nc, "ns": draw(st.sampled_from([9000, 9000, 6000, 12000])), "fs": draw(st.sampled_from([FS_AP, FS_AP, 29999.757983])),
+    if draw(st.integers(0, 5)) == 0:
+        # raw recordings carry static per-channel DC offsets of the order of millivolts; with a WEAK coherent background
+        # (at or below the sensor noise) a silent channel must still be the only label (calibrated: 120 of 120 on the
+        # unchanged tree). One silent interior channel, no other fault.
+        bg = {"seed": draw(st.integers(0, 2 ** 32 - 1)), "nsrc": draw(st.integers(1, 4)), "amp_uv": draw(st.sampled_from([4.0, 6.0, 8.0])),
+              "noise_uv": draw(st.sampled_from([8.0, 10.0, 12.0])), "gvar": draw(st.sampled_from([0.0, 0.1, 0.2])),
+              "flo": draw(st.sampled_from([300.0, 500.0])), "fhi": draw(st.sampled_from([3000.0, 5000.0, 7000.0])), "lf_uv": 0.0}
+        return {"kind": "detect", "nc": 384, "ns": 9000, "fs": draw(st.sampled_from([FS_AP, 29999.757983])),
+                "dtype": draw(st.sampled_from(["f8", "f4"])), "bg": bg,
+                "fault": {"dead": draw(st.integers(7, 376)), "dead_mode": "zero", "blk": 0},
+                "layout": draw(st.sampled_from(["C", "T"])), "ro": draw(st.booleans()), "kw": draw(st.sampled_from(["pos", "fs_kw", "explicit"])),
+                "reuse": "none", "dc_mv": 2.0, "dc_seed": draw(st.integers(0, 2 ** 16)), "weak_bg": True}
+    dc = {"dc_mv": draw(st.sampled_from([0.0, 0.0, 1.0, 2.0])), "dc_seed": draw(st.integers(0, 2 ** 16))}
+    return {**dc, "kind": "detect", "nc": nc, "ns": draw(st.sampled_from([9000, 9000, 6000, 12000])), "fs": draw(st.sampled_from([FS_AP, FS_AP, 29999.757983])),
             "dtype": draw(st.sampled_from(["f8", "f4"])), "bg": draw(_st_bg()), "fault": draw(_st_fault(nc)),
             "layout": draw(st.sampled_from(["C", "T", "T", "strided"])), "ro": draw(st.booleans()),
             "kw": draw(st.sampled_from(_DETECT_FORMS)),
@@ -812,6 +825,13 @@ def _run_detect(case, ctx):
     fault = _sanitize(dict(case["fault"]), nc)
     X, rng = _background(bg, nc, ns, fs)
     _inject(X, slice(0, ns), fault, bg, fs, rng)
+    if case.get("dc_mv"):
+        # static per-channel DC offsets (a silent channel stays silent)
+        dc = np.random.default_rng(case.get("dc_seed", 0)).uniform(-case["dc_mv"] * 1e-3, case["dc_mv"] * 1e-3, size=(nc, 1))
+        if fault.get("dead") is not None:
+            dc[fault["dead"]] = 0
+        X += dc
+        ctx.label("dc_offsets", "weak_background_dc" if case.get("weak_bg") else "dc_on_strong_background")
     X = np.ascontiguousarray(X.astype(_DT[case["dtype"]]))
     allowed, special = _expected(nc, fault)
     layout, ro, form, reuse = case.get("layout", "C"), case.get("ro", False), case.get("kw", "pos"), case.get("reuse", "none")
